@@ -520,7 +520,13 @@ class Check:
         }
         if self.notes:
             ev["coverage"]["notes"] = self.notes
-        (VERIF / "evidence" / f"{self.prop}.json").write_text(json.dumps(ev, indent=1, default=str))
+        evdir = VERIF / "evidence"
+        if os.path.realpath(str(REPO)) != "/repo":
+            # development aid (seeded-change trials against a scratch worktree): never touch the real evidence
+            evdir = VERIF / "replays" / "trial-evidence"
+            evdir.mkdir(parents=True, exist_ok=True)
+            ev["trial_repo"] = str(REPO)
+        (evdir / f"{self.prop}.json").write_text(json.dumps(ev, indent=1, default=str))
         for ln in lines:
             print(ln)
         print(f"{self.prop} {self.tier}: theorems={len(thms)} proof_ok={proof.get('ok')} "
